@@ -39,7 +39,11 @@ def fineLines (s : St) : List String :=
         "K:" ++ Bytes.toHex p ++ ":" ++ hexS "owner" ++ ":" ++ typedHex e.owner,
         "K:" ++ Bytes.toHex p ++ ":" ++ hexS "boss" ++ ":" ++ typedHex e.boss,
         "K:" ++ Bytes.toHex p ++ ":" ++ hexS "dep" ++ ":" ++ typedHex e.dep ]
-      ++ setLines p "minions" (s.minions.lookup x)) ++
+      ++ setLines p "minions" (s.minions.lookup x)
+      ++ (match e.ext with
+          | none => []
+          | some t => [ "B:" ++ Bytes.toHex p ++ ":" ++ hexS "ext1",
+                        "K:" ++ Bytes.toHex (p ++ slash ++ Bytes.ofString "ext1") ++ ":" ++ hexS "tag" ++ ":" ++ typedHex t ])) ++
   (s.bs.keys.flatMap fun b =>
     ("B:" ++ Bytes.toHex pathB ++ ":" ++ Bytes.toHex b) :: setLines (pathB ++ slash ++ b) "things" (s.things.lookup b))
 
@@ -57,7 +61,7 @@ def coarseLines (s : St) : List String :=
   ["SA:" ++ wireList aIds, "SB:" ++ wireList bIds] ++
   (aIds.filterMap fun x => (s.as.lookup x).map fun e =>
     "A:" ++ Bytes.toWire x ++ ":" ++ fvWire e.owner ++ ":" ++ fvWire e.boss ++ ":" ++ fvWire e.dep ++ ":" ++
-      wireList ((s.minions.lookup x).getD [])) ++
+      wireList ((s.minions.lookup x).getD []) ++ ":" ++ (match e.ext with | none => "!" | some t => fvWire t)) ++
   (bIds.map fun b => "B:" ++ Bytes.toWire b ++ ":" ++ wireList ((s.things.lookup b).getD []))
 
 def coarseText (s : St) : String := "\n".intercalate (coarseLines s)
